@@ -215,7 +215,6 @@ class Topic(Entity):
             self._message_history.append(message)
 
         # Deliver to all active subscribers
-        delivery_events = []
         active_subscribers = [sub for sub in self._subscriptions.values() if sub.active]
 
         for subscription in active_subscribers:
@@ -226,8 +225,12 @@ class Topic(Entity):
             self._messages_delivered += 1
             self._delivery_latencies.append(self._delivery_latency)
 
-            delivery_event = Event(
-                time=now,
+        # The events are scheduled when this generator returns: stamp them with
+        # the clock after the latency waits, not with the (past) publish instant.
+        deliver_at = self._clock.now if self._clock else now
+        return [
+            Event(
+                time=deliver_at,
                 event_type="topic_message",
                 target=subscription.subscriber,
                 context={
@@ -236,9 +239,8 @@ class Topic(Entity):
                     "is_replay": False,
                 },
             )
-            delivery_events.append(delivery_event)
-
-        return delivery_events
+            for subscription in active_subscribers
+        ]
 
     def publish_sync(self, message: Event) -> list[Event]:
         """Publish a message synchronously (no delay simulation).
